@@ -45,9 +45,13 @@ def cases(seed, tier, broken=()):
                     "use_coslat": bool(rng.random() < 0.5), "weights": bool(rng.random() < 0.4),
                     "alpha": [float(rng.choice([0.0, 0.5, 1.0, float(rng.uniform(0, 1))])) for _ in range(2)],
                     "use_pca": bool(rng.random() < 0.5), "power": int(rng.integers(1, 3)), "coords": str(rng.choice(["new", "repeated", "training"])),
-                    "k": int(rng.integers(1, 6)), "tiny": bool(i % 4 == 0)})
+                    "k": int(rng.integers(1, 6)), "tiny": bool(i % 4 == 0), "desc_lat": bool(i % 2)})
         if out[-1]["tiny"]:
             out[-1]["standardize"] = True
+        if i % 3 == 2:
+            # the field as a Dataset of two variables stored (lon, lat, time): the layout of the data handed to `transform` (the
+            # reconstruction comes back in another dimension order) must not matter
+            out[-1].update(layout="DS", weights=False)
             out[-1]["k"] = 99  # all modes
     for i in range(max(8, n // 2)):
         cls = (EXACT_BOTH + ["SparsePCA", "POP", "HilbertEOF", "HilbertMCA"])[i % (len(EXACT_BOTH) + 4)]
@@ -70,6 +74,8 @@ def _data(case, cls, n=24, ny=3, nx=4, nx2=3):
         if cplx:
             v = v + 1j * rng.normal(size=(n, ny, nx)) * sc
         lat = np.linspace(-70, 65, ny)
+        if case.get("desc_lat"):
+            lat = lat[::-1].copy()  # north -> south, as reanalysis grids are stored: an UNSORTED feature coordinate
         return xr.DataArray(v, dims=("time", "lat", "lon"), coords={"time": np.arange(n), "lat": lat, "lon": np.arange(nx) * 15.0}, name="f")
 
     X = field(ny, nx, 5.0)
@@ -260,6 +266,11 @@ def run_tfinv(case):
     cls = case["cls"]
     data, W = _data(case, cls)
     two = zoo.takes_two(cls)
+    if case.get("layout") == "DS":
+        def as_ds(A):
+            B = (A * 0.5 + 1.0).isel(lon=slice(None, None, -1)).assign_coords(lon=A.lon.values)
+            return xr.Dataset({"a": A.transpose("lon", "lat", "time"), "b": B.transpose("lon", "lat", "time")})
+        data = tuple(as_ds(A) for A in data) if two else as_ds(data)
     rng = np.random.default_rng(case["mseed"] + 1)
     k = case["k"]
     if k == 99:
